@@ -2,27 +2,36 @@
 
 Correspondence: the real `optimal_completion` / `OptimalCompletion` and
 `hard_optimal_completion_distillation_loss` / `HardOptimalCompletionDistillationLoss` are run
-in-process on padded batches; the Lean driver runs the per-column model
-(`Model/OptCompletion.lean`) on the same columns and, independently of the mask/sort/scatter
-path, the oracle `best (p ++ [t]) == best p` through the shared DP with the true costs.
+in-process on padded batches handed over in every documented way (call style, memory layout, token
+dtype, cost type — see `c03_call.py`); the Lean driver runs the batch-level model
+(`Model/OptCompletion.lean`, `Model/OptCompletionBatch.lean`) on the tensors in the layout the call
+used and, independently of the mask/sort/scatter path, the oracle `best (p ++ [t]) == best p`
+through the shared DP with the true costs.
 
 Streams
-* exact: targets (integers; costs are dyadic so every float32 DP entry is exact);
-* tolerance: loss (random logits; torch's own log_softmax is handed to the model as exact
-  rationals, results compared with 1e-5 relative tolerance);
+* exact: targets (integers; costs are dyadic so every float32 DP entry is exact). The verdict on the
+  implementation's own output tensor is computed twice: by the Lean `rowCheck` (proved sound and
+  complete for the property, `C03_rowcheck`) and by the python predicate; they must agree;
+* tolerance: loss (logits of several magnitude classes, float32 and float64; an independent
+  double-precision log-softmax is handed to the model as exact rationals; results compared with a
+  relative tolerance of 1e-5 (float32) / 1e-9 (float64));
 * malformed: shape errors (must raise) and the excluded point — an empty counted hypothesis
-  together with exclude_last — which is run but NEVER judged.
+  together with exclude_last — which is run but NEVER judged; zero-size batches (N = 0, outside the
+  property's N >= 1) and non-long reference tensors (outside the documented "long tensor") may be
+  rejected, but when they are accepted the result is judged like any other.
 """
 import itertools
-import random
 import warnings
 from fractions import Fraction
 
 from common.framework import PropertyCheck, frac_str, parse_frac
 
+import c03_call as cc
+
 COSTS = ["1/4", "1/2", "1", "3/2", "2", "3", "4"]
-PADS = [-100, -2, 77]
-TOL = 1e-5
+PADS = [-100, -2, 77, 2 ** 40 + 3]
+TOL = {"float32": 1e-5, "float64": 1e-9}
+RESERVED = set(PADS) | {-1}
 
 
 def _f(s):
@@ -43,9 +52,9 @@ def cut_len(toks, eos, include_eos):
     return l
 
 
-def gen_col(rng, L, alphabet, eos, dup_bias):
+def gen_col(rng, L, alphabet, eos, dup_bias, junk=-1):
     """A padded column of length L. With eos set and present: tokens, eos, then garbage that
-    deliberately repeats tokens of the valid part (and -1 / eos)."""
+    deliberately repeats tokens of the valid part (and `junk` / eos)."""
     alpha = [a for a in alphabet if a != eos] or [1]
     if dup_bias and len(alpha) > 1 and rng.random() < 0.6:
         alpha = rng.sample(alpha, max(1, len(alpha) - 1))  # fewer symbols -> more repeats
@@ -55,34 +64,130 @@ def gen_col(rng, L, alphabet, eos, dup_bias):
     out = [rng.choice(alpha) for _ in range(min(p, L))]
     if p < L:
         out.append(eos)
-        filler = alpha + alpha + [eos, -1]
+        filler = alpha + alpha + [eos, junk]
         out += [rng.choice(filler) for _ in range(L - p - 1)]
     return out
+
+
+def pick_alphabet(rng, V, kind):
+    """V + 1 distinct token values, none of them a padding value or -1."""
+    if kind == "negative":
+        start = rng.choice([-9, -40, -3000])
+        vals = [start - 3 * i for i in range(V + 1)]
+    elif kind == "big":
+        vals = [rng.choice([2 ** 33, 2 ** 40, -2 ** 45, 2 ** 62]) + 7 * i + 1 for i in range(V + 1)]
+    elif kind == "mixed":
+        pool = [-2 ** 35, -7, 0, 3, 200, 30000, 2 ** 31 + 5, 2 ** 53 + 1, 2 ** 53 + 2]
+        vals = rng.sample(pool, V + 1)
+    elif kind == "byte":
+        vals = rng.sample(range(0, 77), V + 1)
+    else:
+        vals = list(range(V + 1))
+    return [v for v in vals if v not in RESERVED] or [1]
 
 
 class C03(PropertyCheck):
     pid = "C03"
     title = "optimal-completion targets / hard OCD loss"
     rule = ("padded batches N<=4, R,H<=6 (thorough <=9), alphabets of 1-4 symbols so that references repeat "
-            "tokens, eos in {unset, in data at every position incl. 0, absent}, garbage after eos repeating valid "
-            "tokens, every cost triple of {1/4,1/2,1,3/2,2,3,4}^3, include_eos x exclude_last x batch_first, "
-            "functional and module entry points; exhaustive 2-symbol grid for short lengths; loss with random "
-            "logits, all reductions, optional class weights. non-trivial: some column with both cut sequences "
-            "non-empty, different, and not all tokens equal; distinct by (cut ref, cut hyp, costs, option cell)")
+            "tokens (small, negative, > 2^31, > 2^53 and mixed token values), eos in {unset, in data at every "
+            "position incl. 0, absent, negative}, garbage after eos repeating valid tokens, every cost triple of "
+            "{1/4,1/2,1,3/2,2,3,4}^3 (float or int arguments), include_eos x exclude_last x batch_first x warn, "
+            "functional and module entry points x call styles {all keywords, only non-defaults, mixed, all "
+            "positional} (documented defaults and parameter order are written in the harness), memory layouts "
+            "{contiguous, transposed storage, strided slice of a wider buffer, expanded} per tensor, hypothesis "
+            "dtypes int64/int32/int16/int8/uint8; exhaustive 2-symbol grid for short lengths; loss with logits of "
+            "seven magnitude classes (normal, sd 80, offsets +-1e3..3e4, ties, dominant class, -inf at a class "
+            "that is no target), float32 and float64, four logits layouts, all reductions, optional class "
+            "weights, ignore_index below, inside the gap and above the classes. non-trivial: some column with "
+            "both cut sequences non-empty, different, and not all tokens equal; distinct by (cut ref, cut hyp, "
+            "costs, option cell)")
     assumptions = [
         "float32 DP arithmetic is exact on the dyadic cost grid for these sizes (verified: targets are integers "
         "compared exactly with the rational model)",
-        "loss: torch.log_softmax taken as given (its float32 output is passed to the model as exact rationals); "
-        "float32 summation error covered by a 1e-5 relative tolerance",
+        "loss: the log-softmax handed to the model is computed by the harness in double precision (max-shift + "
+        "fsum), not by torch; float summation error covered by a relative tolerance of 1e-5 (float32 logits) / "
+        "1e-9 (float64 logits)",
         "torch primitives sort/gather/masked_select/masked_scatter_/cross_entropy at their documented meaning",
         "the excluded point of the property (no counted hypothesis token together with exclude_last) is generated "
-        "only in the malformed stream and never judged",
+        "only in the malformed stream and never judged; N = 0 and non-long reference tensors may be rejected",
     ]
     exhaustive = {"quick": False, "thorough": False}
     quick_budget_s = 150
     thorough_budget_s = 1200
 
     # ------------------------------------------------------------------ generators
+    def _decorate(self, rng, c, plain=0.25):
+        """How the batch is handed over: call style, cost type, layouts, hypothesis dtype, warn."""
+        if rng.random() < plain:
+            return c
+        c["call"] = rng.choice(cc.STYLES)
+        c["cost_type"] = rng.choice(["float", "float", "int"])
+        c["warn"] = rng.random() < 0.5
+        c["layout"] = [rng.choice(cc.LAYOUTS), rng.choice(cc.LAYOUTS)]
+        toks = [t for col in c["hyps"] for t in col]
+        dt = rng.choice(["int64", "int64", "int32", "int16", "int8", "uint8"])
+        c["tok_dtype"] = ["int64", dt if cc.fits(toks, dt) else "int64"]
+        return c
+
+    def _random_targets(self, rng, i, maxlen, cells, costs, zero_h=True, defaults=False):
+        ie, ex, bf = cells[i % 8]
+        N = rng.choice([1, 2, 3, 4])
+        R = rng.choice(list(range(1, maxlen + 1)))
+        H = rng.choice(list(range(0 if zero_h else 1, maxlen + 1)))
+        V = rng.choice([1, 2, 2, 3, 3, 4])
+        kind = rng.choice(["small", "small", "small", "negative", "big", "mixed", "byte"])
+        alphabet = pick_alphabet(rng, V, kind)
+        eos_kind = rng.choice(["unset", "member", "member", "member", "absent", "negative"])
+        if eos_kind == "unset":
+            eos = None
+        elif eos_kind == "member":
+            eos = alphabet[0]
+        elif eos_kind == "absent":
+            eos = next(x for x in (9, 10 ** 6 + 1, 2 ** 50) if x not in alphabet)
+        else:
+            eos = next(x for x in (-1, -5, -2 ** 40) if x not in alphabet)
+        junk = next(x for x in (-1, 5, 2 ** 20 + 1, -13) if x not in alphabet and x != eos)
+        refs = [gen_col(rng, R, alphabet, eos, True, junk) for _ in range(N)]
+        hyps = [gen_col(rng, H, alphabet, eos, False, junk) for _ in range(N)]
+        if rng.random() < 0.4:  # hypothesis derived from the reference: small distances, many ties
+            for n in range(N):
+                h = [t for t in refs[n] if rng.random() < 0.8]
+                h = (h + [rng.choice(alphabet) for _ in range(H)])[:H]
+                hyps[n] = h
+        if ex:
+            # keep the excluded point out of the judged stream
+            for n in range(N):
+                if cut_len(hyps[n], eos, ie) == 0:
+                    if H == 0:
+                        break
+                    hyps[n][0] = next(a for a in alphabet + [1] if a != eos)
+            if H == 0:
+                ex = False
+        used = {t for col in refs + hyps for t in col} | {eos}
+        padding = rng.choice([p for p in PADS if p not in used])
+        if defaults:
+            # documented defaults, left out of the call
+            if rng.random() < 0.6:
+                costs = ("1", "1", "1")
+            elif rng.random() < 0.6:
+                costs = tuple("1" if rng.random() < 0.6 else c for c in costs)
+            if rng.random() < 0.6 and -100 not in used:
+                padding = -100
+            if rng.random() < 0.5:
+                ie = True
+            if rng.random() < 0.5:
+                ex = False
+            if rng.random() < 0.5:
+                bf = False
+            if rng.random() < 0.4:
+                eos = None  # its former value stays in the data as an ordinary token
+        c = self._targets_case(rng, refs, hyps, eos, ie, ex, bf, costs, padding,
+                               "functional" if i % 3 else "module")
+        if ex and any(cut_len(h, eos, ie) == 0 for h in hyps):
+            c["exclude_last"] = False
+        return c
+
     def cases(self, rng, tier):
         scale = {"quick": 1, "thorough": 8, "search": 12}[tier]
         maxlen = 6 if tier == "quick" else 9
@@ -100,10 +205,14 @@ class C03(PropertyCheck):
         # hand-written edges first -------------------------------------------------
         yield self._targets_case(rng, [[1, 2, 2, 3, 0, 2, 2]], [[2, 1, 2, 0, 5]], 0, True, False, False,
                                  ("1", "1", "1"), -100, "functional")
-        # R == 0 / H == 0 (zero-length dimensions, eos unset so that C01's _lens_from_eos is not involved)
+        # R == 0 / H == 0 (zero-length dimensions)
         for R, H, ex in [(0, 2, False), (0, 0, False), (3, 0, False), (0, 3, True)]:
-            yield self._targets_case(rng, [[1] * R, [2] * R], [[1] * H, [2] * H], None, False, ex, False,
-                                     ("1", "2", "1/2"), -100, "functional")
+            for bf in (False, True):
+                for eos in (None, 1):
+                    c = self._targets_case(rng, [[1] * R, [2] * R], [[1] * H, [2] * H], eos, False, ex and eos is None,
+                                           bf, ("1", "2", "1/2"), -100, "functional" if bf else "module")
+                    c["call"] = "minimal" if bf else "positional"
+                    yield c
 
         # small exhaustive grid: alphabet {1,2} + eos 0 -----------------------------
         lim = 2 if tier == "quick" else 3
@@ -121,69 +230,52 @@ class C03(PropertyCheck):
                 if not ch:
                     continue
                 ci += 1
-                yield self._targets_case(rng, [r for r, _ in ch], [h for _, h in ch], 0, ie, ex, bf,
-                                         next_costs(), rng.choice(PADS), "functional" if ci % 3 else "module")
+                c = self._targets_case(rng, [r for r, _ in ch], [h for _, h in ch], 0, ie, ex, bf,
+                                       next_costs(), rng.choice(PADS), "functional" if ci % 3 else "module")
+                c["call"] = cc.STYLES[ci % 4]
+                yield c
 
         # random structured stream --------------------------------------------------
-        n_rand = 800 * scale
-        for i in range(n_rand):
-            ie, ex, bf = cells[i % 8]
-            N = rng.choice([1, 2, 3, 4])
-            R = rng.choice([1, 2, 3, 4, 5, 6] if maxlen == 6 else list(range(1, maxlen + 1)))
-            H = rng.choice([0, 1, 2, 3, 4, 5, 6] if maxlen == 6 else list(range(0, maxlen + 1)))
-            V = rng.choice([1, 2, 2, 3, 3, 4])
-            alphabet = list(range(V + 1))
-            eos = rng.choice([None, 0, 0, 0, 9])
-            refs = [gen_col(rng, R, alphabet, eos, True) for _ in range(N)]
-            hyps = [gen_col(rng, H, alphabet, eos, False) for _ in range(N)]
-            if rng.random() < 0.4:  # hypothesis derived from the reference: small distances, many ties
-                for n in range(N):
-                    h = [t for t in refs[n] if rng.random() < 0.8]
-                    h = (h + [rng.choice(alphabet) for _ in range(H)])[:H]
-                    hyps[n] = h
-            if ex:
-                # keep the excluded point out of the judged stream
-                for n in range(N):
-                    if cut_len(hyps[n], eos, ie) == 0:
-                        if H == 0:
-                            break
-                        hyps[n][0] = next(a for a in alphabet + [1] if a != eos)
-                if H == 0:
-                    ex = False
+        for i in range(800 * scale):
             costs = next_costs() if i % 5 else (lambda c: (c, c, c))(rng.choice(COSTS))
-            yield self._targets_case(rng, refs, hyps, eos, ie, ex, bf, costs, rng.choice(PADS),
-                                     "functional" if i % 3 else "module")
+            yield self._decorate(rng, self._random_targets(rng, i, maxlen, cells, costs))
+
+        # documented defaults left out of the call -----------------------------------
+        for i in range(160 * scale):
+            c = self._random_targets(rng, i, maxlen, cells, next_costs(), defaults=True)
+            self._decorate(rng, c, plain=0.0)
+            c["call"] = rng.choice(["minimal", "minimal", "mixed"])
+            yield c
+
+        # reference tensors that are not long (the documentation asks for long tensors) ----
+        for i in range(24 * scale):
+            c = self._random_targets(rng, i, 4, cells, next_costs())
+            toks = [t for col in c["refs"] + c["hyps"] for t in col]
+            dt = rng.choice(["int32", "int16", "int8", "uint8"])
+            if not cc.fits(toks, dt):
+                dt = "int32" if cc.fits(toks, "int32") else "int64"
+            c["tok_dtype"] = [dt, rng.choice(["int64", dt])]
+            yield c
+
+        # zero-size batches (outside the property: N >= 1) ----------------------------
+        for i in range(8):
+            R, H = rng.choice([0, 2, 3]), rng.choice([0, 1, 3])
+            c = self._targets_case(rng, [], [], rng.choice([None, 0]), bool(i & 1), False, bool(i & 2),
+                                   next_costs(), -100, "functional" if i % 3 else "module")
+            c.update(kind="zero_batch", R=R, H=H)
+            yield c
 
         # loss (tolerance stream) ---------------------------------------------------
-        for i in range(160 * scale):
-            ie, _, bf = cells[i % 8]
-            N = rng.choice([1, 2, 3, 4])
-            R = rng.choice(range(1, maxlen + 1))
-            H = rng.choice(range(1, maxlen + 1))
-            V = rng.choice([2, 3, 4, 5])
-            alphabet = list(range(V))
-            eos = rng.choice([None, 0, 0, V - 1])
-            refs = [gen_col(rng, R, alphabet, eos, True) for _ in range(N)]
-            hyps = [gen_col(rng, H, alphabet, eos, False) for _ in range(N)]
-            # garbage may contain -1; valid region never does (gen_col puts -1 only after eos)
-            for n in range(N):
-                if cut_len(hyps[n], eos, ie) == 0:
-                    hyps[n][0] = next(a for a in alphabet if a != eos)
-            costs = next_costs() if i % 4 else ("1", "1", "1")
-            weight = None
-            if i % 3 == 0:
-                weight = [rng.choice(["0", "1/2", "1", "2", "3/4", "5/2"]) for _ in range(V)]
-            yield {"kind": "loss", "refs": refs, "hyps": hyps, "eos": eos, "include_eos": ie,
-                   "batch_first": bf, "ins": costs[0], "del": costs[1], "sub": costs[2],
-                   "V": V, "lseed": rng.randrange(1 << 30), "weight": weight,
-                   "ignore_index": rng.choice([-2, -100, -1]),
-                   "entry": "functional" if i % 2 else "module"}
+        for i in range(240 * scale):
+            yield self._random_loss(rng, i, maxlen, cells, next_costs() if i % 4 else ("1", "1", "1"))
 
         # malformed stream ----------------------------------------------------------
         for i in range(12 * scale):
             yield {"kind": "malformed", "what": ["batch_mismatch", "ref_1d", "hyp_3d", "logits_2d",
                                                   "logits_shape", "eos_not_class", "eos_is_ignore",
-                                                  "bad_reduction"][i % 8],
+                                                  "bad_reduction", "eos_negative_included",
+                                                  "bad_reduction_module", "batch_mismatch_bf",
+                                                  "logits_batch"][i % 12],
                    "seed": rng.randrange(1 << 20)}
         for i in range(12 * scale):
             # the excluded point: some column without a counted hypothesis token + exclude_last
@@ -199,6 +291,63 @@ class C03(PropertyCheck):
             c["kind"] = "excluded"
             yield c
 
+    def _random_loss(self, rng, i, maxlen, cells, costs):
+        ie, _, bf = cells[i % 8]
+        N = rng.choice([1, 2, 3, 4])
+        R = rng.choice(range(1, maxlen + 1))
+        H = rng.choice(range(1, maxlen + 1))
+        V = rng.choice([2, 3, 4, 5, 6])
+        alphabet = list(range(V))
+        if V >= 4 and rng.random() < 0.4:
+            alphabet = rng.sample(alphabet, V - 2)  # classes that never occur in the data
+        eos_opts = [None, alphabet[0], alphabet[0], alphabet[-1]]
+        if not ie:
+            eos_opts += [V + 3, -1]  # not a class: allowed when the eos is not counted
+        eos = rng.choice(eos_opts)
+        junk = -1 if eos != -1 else -7
+        refs = [gen_col(rng, R, alphabet, eos, True, junk) for _ in range(N)]
+        hyps = [gen_col(rng, H, alphabet, eos, False, junk) for _ in range(N)]
+        for n in range(N):
+            if cut_len(hyps[n], eos, ie) == 0:
+                hyps[n][0] = next(a for a in alphabet + [V - 1, 0] if a != eos)
+        if rng.random() < 0.25:  # a column whose reference is empty: no targets anywhere
+            n = rng.randrange(N)
+            if eos is not None and not ie:
+                refs[n][0] = eos
+        weight = None
+        if i % 3 == 0:
+            weight = [rng.choice(["0", "1/2", "1", "2", "3/4", "5/2"]) for _ in range(V)]
+        used = {t for col in refs for t in col} | {eos}
+        c = {"kind": "loss", "refs": refs, "hyps": hyps, "eos": eos, "include_eos": ie,
+             "batch_first": bf, "ins": costs[0], "del": costs[1], "sub": costs[2],
+             "V": V, "lseed": rng.randrange(1 << 30), "weight": weight,
+             "ignore_index": rng.choice([x for x in (-2, -100, -1, V, 77) if x not in used or x < 0 and x != eos]),
+             "entry": "functional" if i % 2 else "module"}
+        if rng.random() < 0.8:
+            c["call"] = rng.choice(cc.STYLES)
+            c["cost_type"] = rng.choice(["float", "float", "int"])
+            c["warn"] = rng.random() < 0.5
+            c["layout"] = [rng.choice(cc.LAYOUTS), rng.choice(cc.LAYOUTS)]
+            toks = [t for col in hyps for t in col]
+            dt = rng.choice(["int64", "int64", "int32", "int16", "uint8"])
+            c["tok_dtype"] = ["int64", dt if cc.fits(toks, dt) else "int64"]
+            c["logits_dtype"] = rng.choice(["float32", "float32", "float64"])
+            c["logit_layout"] = rng.choice(cc.LOGIT_LAYOUTS)
+            c["logit_class"] = rng.choice(cc.LOGIT_CLASSES)
+            if c["logit_class"] == "neg_inf_offtarget":
+                dead = [v for v in range(V) if v not in used]
+                if dead:
+                    c["dead_class"] = rng.choice(dead)
+                else:
+                    c["logit_class"] = "normal"
+            if rng.random() < 0.3:
+                # documented defaults left out of the call
+                c["call"] = rng.choice(["minimal", "mixed"])
+                if rng.random() < 0.5:
+                    c["ins"] = c["del"] = c["sub"] = "1"
+                c["ignore_index"] = -2 if c["entry"] == "functional" else -100
+        return c
+
     def _targets_case(self, rng, refs, hyps, eos, ie, ex, bf, costs, padding, entry):
         return {"kind": "targets", "refs": refs, "hyps": hyps, "eos": eos, "include_eos": ie,
                 "exclude_last": ex, "batch_first": bf, "ins": costs[0], "del": costs[1], "sub": costs[2],
@@ -206,83 +355,108 @@ class C03(PropertyCheck):
 
     # ------------------------------------------------------------------ implementation
     @staticmethod
-    def _tensors(case):
-        import torch
+    def _dims(case):
         N = len(case["refs"])
-        R = len(case["refs"][0]) if N else 0
-        H = len(case["hyps"][0]) if N else 0
-        ref = torch.tensor(case["refs"], dtype=torch.long).reshape(N, R)
-        hyp = torch.tensor(case["hyps"], dtype=torch.long).reshape(N, H)
-        if not case["batch_first"]:
-            ref, hyp = ref.t().contiguous(), hyp.t().contiguous()
-        return ref, hyp
+        R = len(case["refs"][0]) if N else case.get("R", 0)
+        H = len(case["hyps"][0]) if N else case.get("H", 0)
+        return N, R, H
+
+    def _tensors(self, case):
+        """(ref, hyp, backing tensors)."""
+        N, R, H = self._dims(case)
+        dts = case.get("tok_dtype") or ["int64", "int64"]
+        lay = case.get("layout") or ["contig", "contig"]
+        garbage = sorted({t for col in case["refs"] + case["hyps"] for t in col
+                          if cc.fits([t], dts[0]) and cc.fits([t], dts[1])}) or [0]
+        ref, rb = cc.make_tokens(case["refs"], R, case["batch_first"], dts[0], lay[0], garbage)
+        hyp, hb = cc.make_tokens(case["hyps"], H, case["batch_first"], dts[1], lay[1], garbage)
+        return ref, hyp, (rb, hb)
 
     @staticmethod
-    def _loss_inputs(case):
-        """logits (H, N, V) float32 from the case's own seed, torch's log_softmax of them."""
-        import torch
-        N = len(case["refs"])
-        H = len(case["hyps"][0])
-        V = case["V"]
-        r = random.Random(case["lseed"])
-        vals = [[[r.gauss(0.0, 2.5) for _ in range(V)] for _ in range(N)] for _ in range(H)]
-        logits = torch.tensor(vals, dtype=torch.float32).reshape(H, N, V)
-        lsm = torch.log_softmax(logits, -1)
-        return logits, lsm
+    def _values(case, mode):
+        ins, dele, sub = cc.cost_values(case)
+        v = {"eos": case["eos"], "include_eos": case["include_eos"], "batch_first": case["batch_first"],
+             "ins_cost": ins, "del_cost": dele, "sub_cost": sub, "warn": case.get("warn", False)}
+        if mode == "targets":
+            v.update(padding=case["padding"], exclude_last=case["exclude_last"])
+        return v
 
     def run_impl(self, case):
         import torch
         from pydrobert.torch import functional as F, modules as M
+        self._stash = None
         with warnings.catch_warnings():
             warnings.simplefilter("ignore")
             if case["kind"] == "malformed":
-                return self._run_malformed(case, torch, F)
-            ref, hyp = self._tensors(case)
-            kw = dict(eos=case["eos"], include_eos=case["include_eos"], batch_first=case["batch_first"],
-                      ins_cost=_f(case["ins"]), del_cost=_f(case["del"]), sub_cost=_f(case["sub"]))
-            if case["kind"] in ("targets", "excluded"):
-                kw.update(padding=case["padding"], exclude_last=case["exclude_last"])
+                return self._run_malformed(case, torch, F, M)
+            ref, hyp, bases = self._tensors(case)
+            keep = [b.clone() for b in bases]
+            style = case.get("call", "keyword")
+            if case["kind"] in ("targets", "excluded", "zero_batch"):
+                values = self._values(case, "targets")
+                pos, kw = cc.split_args(values, cc.ORDER["targets"], cc.DOC_DEFAULTS["targets"], style)
+                second = None
                 if case["entry"] == "module":
-                    out = M.OptimalCompletion(**kw)(ref, hyp)
+                    mod = M.OptimalCompletion(*pos, **kw)
+                    out = mod(ref, hyp)
+                    out2 = mod(ref, hyp)
+                    second = bool(out2.shape == out.shape and torch.equal(out2, out))
                 else:
-                    out = F.optimal_completion(ref, hyp, warn=False, **kw)
-                if case["batch_first"]:
-                    out = out.transpose(0, 1)
-                return {"shape": list(out.shape), "rows": out.tolist()}
+                    out = F.optimal_completion(ref, hyp, *pos, **kw)
+                res = {"shape": list(out.shape), "dtype": str(out.dtype), "out": out.tolist(),
+                       "inputs_untouched": all(torch.equal(b, k) for b, k in zip(bases, keep)),
+                       "second_call_same": second}
+                self._stash = (id(case), res)
+                return res
             # loss
-            logits, _ = self._loss_inputs(case)
-            if case["batch_first"]:
-                logits = logits.transpose(0, 1).contiguous()
+            vals = cc.logit_values(case)
+            logits, lbase = cc.make_logits(case, vals)
+            lkeep = lbase.clone()
             weight = None
             if case["weight"] is not None:
-                weight = torch.tensor([_f(w) for w in case["weight"]], dtype=torch.float32)
-            res = {}
+                weight = torch.tensor([_f(w) for w in case["weight"]], dtype=logits.dtype)
+            values = self._values(case, "loss")
+            values.update(weight=weight, ignore_index=case["ignore_index"])
+            res = {"dtype": {}}
             for red in ("none", "sum", "mean"):
+                values["reduction"] = red
                 if case["entry"] == "module":
-                    v = M.HardOptimalCompletionDistillationLoss(
-                        weight=weight, reduction=red, ignore_index=case["ignore_index"], **kw)(
-                        logits, ref, hyp, warn=False)
+                    warn = values["warn"]
+                    pos, kw = cc.split_args(values, cc.ORDER["loss_module"], cc.DOC_DEFAULTS["loss_module"], style)
+                    mod = M.HardOptimalCompletionDistillationLoss(*pos, **kw)
+                    if style == "positional":
+                        v = mod(logits, ref, hyp, warn)
+                    elif style == "keyword" or not warn:
+                        v = mod(logits, ref, hyp, warn=warn)
+                    else:
+                        v = mod(logits, ref, hyp)
                 else:
-                    v = F.hard_optimal_completion_distillation_loss(
-                        logits, ref, hyp, weight=weight, reduction=red, ignore_index=case["ignore_index"],
-                        warn=False, **kw)
+                    pos, kw = cc.split_args(values, cc.ORDER["loss_functional"],
+                                            cc.DOC_DEFAULTS["loss_functional"], style)
+                    v = F.hard_optimal_completion_distillation_loss(logits, ref, hyp, *pos, **kw)
+                res["dtype"][red] = str(v.dtype)
                 if red == "none":
-                    if case["batch_first"]:
-                        v = v.transpose(0, 1)
-                    res[red] = [[frac_str(x) for x in row] for row in v.tolist()]
+                    res["none_shape"] = list(v.shape)
+                    res["none_native"] = [[frac_str(x) for x in row] for row in v.tolist()]
                 else:
-                    res[red] = frac_str(v.item())
+                    res[red + "_shape"] = list(v.shape)
+                    res[red] = frac_str(v.item()) if v.dim() == 0 else "not-a-scalar"
+            res["inputs_untouched"] = bool(all(torch.equal(b, k) for b, k in zip(bases, keep))
+                                           and torch.equal(lbase, lkeep))
             return res
 
-    def _run_malformed(self, case, torch, F):
+    def _run_malformed(self, case, torch, F, M):
+        import random as _random
         what = case["what"]
-        r = random.Random(case["seed"])
+        r = _random.Random(case["seed"])
         N, R, H, V = r.choice([1, 2, 3]), r.choice([1, 2, 3]), r.choice([1, 2, 3]), 4
         ref = torch.randint(0, V, (R, N), generator=torch.Generator().manual_seed(case["seed"]))
         hyp = torch.randint(0, V, (H, N), generator=torch.Generator().manual_seed(case["seed"] + 1))
         logits = torch.zeros((H, N, V))
         if what == "batch_mismatch":
             F.optimal_completion(ref, torch.zeros((H, N + 1), dtype=torch.long), warn=False)
+        elif what == "batch_mismatch_bf":
+            M.OptimalCompletion(batch_first=True)(ref.t(), torch.zeros((N + 1, H), dtype=torch.long))
         elif what == "ref_1d":
             F.optimal_completion(ref[:, 0], hyp, warn=False)
         elif what == "hyp_3d":
@@ -291,28 +465,35 @@ class C03(PropertyCheck):
             F.hard_optimal_completion_distillation_loss(logits[..., 0], ref, hyp, warn=False)
         elif what == "logits_shape":
             F.hard_optimal_completion_distillation_loss(torch.zeros((H + 1, N, V)), ref, hyp, warn=False)
+        elif what == "logits_batch":
+            F.hard_optimal_completion_distillation_loss(torch.zeros((H, N + 1, V)), ref, hyp, warn=False)
         elif what == "eos_not_class":
             F.hard_optimal_completion_distillation_loss(logits, ref, hyp, eos=V, include_eos=True, warn=False)
+        elif what == "eos_negative_included":
+            F.hard_optimal_completion_distillation_loss(logits, ref, hyp, eos=-1, include_eos=True, warn=False)
         elif what == "eos_is_ignore":
             F.hard_optimal_completion_distillation_loss(logits, ref, hyp, eos=1, include_eos=True,
                                                         ignore_index=1, warn=False)
         elif what == "bad_reduction":
             F.hard_optimal_completion_distillation_loss(logits, ref, hyp, reduction="avg", warn=False)
+        elif what == "bad_reduction_module":
+            M.HardOptimalCompletionDistillationLoss(reduction="avg")(logits, ref, hyp, warn=False)
         return {"returned": True}
 
     # ------------------------------------------------------------------ model
     def model_request(self, case):
-        if case["kind"] in ("malformed", "excluded"):
+        if case["kind"] in ("malformed", "excluded", "zero_batch"):
             return None
         base = {"eos": case["eos"], "include_eos": case["include_eos"], "ins": case["ins"],
                 "del": case["del"], "sub": case["sub"], "refs": case["refs"], "hyps": case["hyps"]}
         if case["kind"] == "targets":
             base.update(exclude_last=case["exclude_last"], padding=case["padding"])
             return {"op": "c03.targets", "case": base}
-        _, lsm = self._loss_inputs(case)
+        lsm = [[cc.lsm_oracle(vec) for vec in mat] for mat in cc.logit_values(case)]
         base.update(exclude_last=True, padding=case["ignore_index"], ignore_index=case["ignore_index"],
                     weight=case["weight"],
-                    lsm=[[[frac_str(x) for x in vec] for vec in row] for row in lsm.tolist()])
+                    lsm=[[[frac_str(x) if x != float("-inf") else str(cc.NEG_INF_SENTINEL) for x in vec]
+                          for vec in mat] for mat in lsm])
         return {"op": "c03.loss", "case": base}
 
     # ------------------------------------------------------------------ helpers
@@ -328,6 +509,17 @@ class C03(PropertyCheck):
     def _valid_count(case, hyp_len):
         return hyp_len if case.get("exclude_last", True) else hyp_len + 1
 
+    @staticmethod
+    def _rows_kn(case, nested, Hp, N):
+        """Native nested output -> rows[k][n] (None when the outer shape is not the documented one)."""
+        if case["batch_first"]:
+            if len(nested) != N or any(len(r) != Hp for r in nested):
+                return None
+            return [[nested[n][k] for n in range(N)] for k in range(Hp)]
+        if len(nested) != Hp or any(len(r) != N for r in nested):
+            return None
+        return nested
+
     def _check_model_vs_oracle(self, case, model):
         """The theorems say the model's lists are the oracle's sets; a mismatch is a machinery error."""
         pad = case["padding"]
@@ -340,19 +532,27 @@ class C03(PropertyCheck):
                 if not ok or got != want:
                     raise AssertionError(f"model != spec at column {n} prefix {k}: model {got} oracle {want}")
 
+    @staticmethod
+    def _not_long(case):
+        return any(d != "int64" for d in (case.get("tok_dtype") or ["int64"]))
+
     # ------------------------------------------------------------------ correspondence
     def compare(self, case, impl, model):
         if case["kind"] == "targets":
             self._check_model_vs_oracle(case, model)
             if "error" in impl:
+                if self._not_long(case):
+                    return []
                 return [f"implementation raised {impl['error']}: {impl.get('message')}"]
             N = len(case["refs"])
             out = []
-            if impl["shape"][:2] != [model["Hp"], N]:
-                return [f"shape impl={impl['shape']} model={[model['Hp'], N, model['C']]}"]
+            rows = self._rows_kn(case, impl["out"], model["Hp"], N)
+            if rows is None:
+                return [f"shape impl={impl['shape']} model prefixes={model['Hp']} batch={N} width={model['C']} "
+                        f"batch_first={case['batch_first']}"]
             for k in range(model["Hp"]):
                 for n in range(N):
-                    a, _ = self._strip(impl["rows"][k][n], case["padding"])
+                    a, _ = self._strip(rows[k][n], case["padding"])
                     b, _ = self._strip(model["rows"][k][n], case["padding"])
                     if sorted(a) != sorted(b):
                         out.append(f"prefix {k} column {n}: impl {a} model {b}")
@@ -360,29 +560,50 @@ class C03(PropertyCheck):
         if case["kind"] == "loss":
             if "error" in impl:
                 return [f"implementation raised {impl['error']}: {impl.get('message')}"]
-            return self._loss_diff(impl, {"none": model["none"], "sum": model["sum"], "mean": model["mean"]},
-                                   "model")
+            mat = self._loss_matrix(case, impl)
+            if mat is None:
+                return [f"loss matrix shape impl={impl['none_shape']}"]
+            return self._loss_diff(case, dict(impl, none=mat),
+                                   {"none": model["none"], "sum": model["sum"], "mean": model["mean"]}, "model")
         return []
 
-    @staticmethod
-    def _close(a, b, scale):
-        return abs(a - b) <= TOL * max(1.0, scale)
+    def _loss_matrix(self, case, impl):
+        N, _, H = self._dims(case)
+        nat = impl["none_native"]
+        want = [N, H] if case["batch_first"] else [H, N]
+        if impl["none_shape"] != want:
+            return None
+        if case["batch_first"]:
+            return [[nat[n][k] for n in range(N)] for k in range(H)]
+        return nat
 
-    def _loss_diff(self, impl, ref, name):
+    @staticmethod
+    def _num(s):
+        return float(parse_frac(s))  # "nan" / "inf" / "-inf" come back as words
+
+    def _close(self, case, a, b, scale):
+        if a != a or b != b or abs(a) == float("inf") or abs(b) == float("inf"):
+            return False
+        return abs(a - b) <= TOL[case.get("logits_dtype", "float32")] * max(1.0, scale)
+
+    def _loss_diff(self, case, impl, ref, name):
         out = []
-        mat = [[float(parse_frac(x)) for x in row] for row in ref["none"]]
+        mat = [[self._num(x) for x in row] for row in ref["none"]]
         scale = sum(abs(x) for row in mat for x in row)
         got = impl["none"]
         if [len(r) for r in got] != [len(r) for r in mat]:
             return [f"loss matrix shape impl={[len(r) for r in got]} {name}={[len(r) for r in mat]}"]
         for k, row in enumerate(mat):
             for n, x in enumerate(row):
-                g = float(parse_frac(got[k][n]))
-                if not self._close(g, x, abs(x)):
+                g = self._num(got[k][n])
+                if not self._close(case, g, x, abs(x)):
                     out.append(f"loss[{k}][{n}] impl={g!r} {name}={x!r}")
         for red in ("sum", "mean"):
-            g, x = float(parse_frac(impl[red])), float(parse_frac(ref[red]))
-            if not self._close(g, x, scale):
+            if impl[red] == "not-a-scalar":
+                out.append(f"{red} is not a scalar: shape {impl[red + '_shape']}")
+                continue
+            g, x = self._num(impl[red]), self._num(ref[red])
+            if not self._close(case, g, x, scale):
                 out.append(f"{red} impl={g!r} {name}={x!r}")
         return out[:5]
 
@@ -395,7 +616,18 @@ class C03(PropertyCheck):
             if isinstance(impl, dict) and "error" in impl:
                 return []
             return [(f"malformed input '{case['what']}' was accepted silently", "C03.malformed.accepted")]
+        if kind == "zero_batch":
+            if "error" in impl:
+                return []  # N = 0 is outside the property (N >= 1); a refusal is fine
+            Hp = case["H"] + (0 if case["exclude_last"] else 1)
+            want = [0, max(Hp, 1)] if case["batch_first"] else [max(Hp, 1), 0]
+            if impl["shape"][:2] != want:
+                return [(f"empty batch: output shape {impl['shape']}, expected {want} + [*]",
+                         "C03.targets.zero_batch_shape")]
+            return []
         if "error" in impl:
+            if self._not_long(case):
+                return []  # the documentation asks for a long tensor
             sig = None
             N = len(case["refs"])
             if kind == "targets" and N and len(case["refs"][0]) == 0 and impl["error"] == "IndexError":
@@ -406,15 +638,24 @@ class C03(PropertyCheck):
             return []
         fails = []
         N = len(case["refs"])
+        if not impl.get("inputs_untouched", True):
+            fails.append(("the call wrote to one of its input tensors", "C03.inputs_modified"))
         if kind == "targets":
             pad = case["padding"]
             Hp = model["Hp"]
-            if len(impl["rows"]) != Hp or any(len(r) != N for r in impl["rows"]):
-                return [(f"output has shape {impl['shape']}, expected ({Hp}, {N}, *)", "C03.targets.shape")]
+            if impl["second_call_same"] is False:
+                fails.append(("a second call of the same module object returned something else",
+                              "C03.module.second_call"))
+            if impl["dtype"] != "torch.int64":
+                fails.append((f"targets have dtype {impl['dtype']}, documented: long", "C03.targets.dtype"))
+            rows = self._rows_kn(case, impl["out"], Hp, N)
+            if rows is None or len(impl["shape"]) != 3:
+                want = f"({N}, {Hp}, *)" if case["batch_first"] else f"({Hp}, {N}, *)"
+                return fails + [(f"output has shape {impl['shape']}, expected {want}", "C03.targets.shape")]
             for n in range(N):
                 nv = self._valid_count(case, model["hyp_lens"][n])
                 for k in range(Hp):
-                    row = impl["rows"][k][n]
+                    row = rows[k][n]
                     got, ok = self._strip(row, pad)
                     if not ok:
                         fails.append((f"column {n} prefix {k}: padding inside the list {row}",
@@ -435,6 +676,14 @@ class C03(PropertyCheck):
                                       "C03.targets.set_mismatch"))
             return fails[:6]
         # loss: spec value from the oracle sets, reductions recomputed here in exact arithmetic
+        ldt = "torch." + case.get("logits_dtype", "float32")
+        for red, dt in impl["dtype"].items():
+            if dt != ldt:
+                fails.append((f"reduction {red}: result dtype {dt} for {ldt} logits", "C03.loss.dtype"))
+        mat = self._loss_matrix(case, impl)
+        if mat is None:
+            return fails + [(f"unreduced loss has shape {impl['none_shape']}, expected the shape of hyp",
+                             "C03.loss.shape")]
         cells = [[parse_frac(x) for x in row] for row in model["spec_cells"]]
         H = len(cells)
         ref = {"none": [[frac_str(x) for x in row] for row in cells]}
@@ -445,7 +694,7 @@ class C03(PropertyCheck):
                            and k < model["hyp_lens"][n])
             per.append(sum((cells[k][n] for k in range(H)), Fraction(0)) / max(nonempty, 1))
         ref["mean"] = frac_str(sum(per, Fraction(0)) / N)
-        for d in self._loss_diff(impl, ref, "spec"):
+        for d in self._loss_diff(case, dict(impl, none=mat), ref, "spec"):
             fails.append((f"loss differs from the average negative log-probability of the target set: {d}",
                           "C03.loss.value"))
         return fails[:4]
@@ -475,14 +724,31 @@ class C03(PropertyCheck):
         t.append(f"cell=ie{int(case['include_eos'])}.ex{int(case.get('exclude_last', True))}."
                  f"bf{int(case['batch_first'])}")
         t.append(f"entry={case['entry']}")
-        t.append("eos=" + ("unset" if case["eos"] is None else
-                           "absent" if all(case["eos"] not in r for r in case["refs"]) else "present"))
+        t.append(f"call={case.get('call', 'keyword')}")
+        t.append(f"cost_type={case.get('cost_type', 'float')}")
+        t.append(f"warn={int(case.get('warn', False))}")
+        lay = case.get("layout") or ["contig", "contig"]
+        dts = case.get("tok_dtype") or ["int64", "int64"]
+        t += [f"ref_layout={lay[0]}", f"hyp_layout={lay[1]}", f"ref_dtype={dts[0]}", f"hyp_dtype={dts[1]}"]
+        if isinstance(impl, dict) and "error" in impl and self._not_long(case):
+            t.append("non_long_tokens_rejected")
+        eos = case["eos"]
+        t.append("eos=" + ("unset" if eos is None else
+                           ("negative_" if eos < 0 else "") +
+                           ("absent" if all(eos not in r for r in case["refs"]) else "present")))
         if case["ins"] == case["del"] == case["sub"]:
             t.append("uniform_cost_shortcut")
-        N = len(case["refs"])
-        R = len(case["refs"][0]) if N else 0
-        H = len(case["hyps"][0]) if N else 0
+        if kind == "zero_batch":
+            return t + ["N=0", "zero_batch=" + ("rejected" if "error" in impl else "accepted")]
+        N, R, H = self._dims(case)
         t += [f"N={N}", f"R={R}", f"H={H}"]
+        toks = [x for col in case["refs"] + case["hyps"] for x in col]
+        if any(x < 0 for x in toks):
+            t.append("negative_tokens")
+        if any(abs(x) >= 2 ** 31 for x in toks):
+            t.append("tokens_beyond_int32")
+        if any(abs(x) > 2 ** 53 for x in toks):
+            t.append("tokens_beyond_float64_integers")
         cuts = self._cuts(case)
         if any(len(set(r)) < len(r) for r, _ in cuts):
             t.append("repeated_token_in_reference")
@@ -494,16 +760,35 @@ class C03(PropertyCheck):
             t.append("empty_cut_hypothesis")
         if any(len(h) < H for _, h in cuts):
             t.append("prefixes_past_end")
-        if kind in ("targets", "excluded") and isinstance(impl, dict) and "rows" in impl:
-            if any(len(self._strip(row, case["padding"])[0]) >= 2 for rows in impl["rows"] for row in rows):
+        if len({len(h) for _, h in cuts}) > 1:
+            t.append("ragged_hypothesis_lengths")
+        if kind in ("targets", "excluded") and isinstance(impl, dict) and "out" in impl and len(impl["shape"]) == 3:
+            t.append(f"padding={case['padding']}")
+            if any(len(self._strip(row, case["padding"])[0]) >= 2 for rows in impl["out"] for row in rows):
                 t.append("prefix_with_several_targets")
         if kind == "loss":
             t.append("weight=" + ("yes" if case["weight"] is not None else "no"))
+            t.append(f"logits_dtype={case.get('logits_dtype', 'float32')}")
+            t.append(f"logit_layout={case.get('logit_layout', 'contig')}")
+            t.append(f"logit_class={case.get('logit_class', 'normal')}")
+            ii = case["ignore_index"]
+            t.append("ignore_index=" + (str(ii) if ii < 0 else "at_V" if ii == case["V"] else "above_V"))
+            if any(len(r) == 0 for r, _ in cuts):
+                t.append("column_without_any_target")
         return t
 
     def shrink(self, case):
         if case["kind"] not in ("targets", "loss"):
             return
+        # first: hand the batch over in the plainest way
+        for opt in ("layout", "tok_dtype", "call", "cost_type", "warn", "logit_layout", "logits_dtype",
+                    "logit_class"):
+            if opt in case:
+                c = dict(case)
+                del c[opt]
+                if opt == "logit_class":
+                    c.pop("dead_class", None)
+                yield c
         N = len(case["refs"])
         R = len(case["refs"][0]) if N else 0
         H = len(case["hyps"][0]) if N else 0
@@ -512,6 +797,8 @@ class C03(PropertyCheck):
                 c = dict(case)
                 c["refs"] = case["refs"][:n] + case["refs"][n + 1:]
                 c["hyps"] = case["hyps"][:n] + case["hyps"][n + 1:]
+                if c.get("dead_class") in {t for col in c["refs"] for t in col}:
+                    continue
                 yield c
         minH = 1 if (case["kind"] == "loss" or case.get("exclude_last")) else 0
         if H > minH:
